@@ -31,7 +31,45 @@ def plan(tier, seed):
     for p0 in (1, 2):
         for fi in (False, True):
             tasks.append(dict(op="ws", p0=p0, fit_intercept=fi, weight=4, domain="AndersonCD|Quadratic|WeightedL1|ws"))
+    for part in range(2):
+        tasks.append(dict(op="gram_claims", part=part, weight=3, domain="GramCD|None|L1|corr"))
     return tasks
+
+
+def run_gram_claims(task, ctx):
+    """GramCD(use_acc=True, cyclic) on the correlated family: the value tested at the top of iteration k+1 is the score of iterate k.  For
+    every k the run with budget k+1 (tol = 0) yields that value s; whenever s is below the recomputed violation of iterate k, the solver
+    run with tol = s claims convergence at iterate k: that concrete run is executed and judged (the certificate of C01)."""
+    from mc import comp as C
+    from mc.drivers import c03
+    n = 0
+    for comp0 in c03.gram_acc_comps(task, ctx.tier):
+        n += 1
+        prev_w = None
+        for k in range(1, 31):
+            c = dict(comp0, solver=dict(name="GramCD", kw=dict(use_acc=True, greedy_cd=False, tol=0.0, max_iter=k)))
+            r = C.execute(c)
+            ctx.states += 1
+            ctx.transitions += 1
+            if r["status"] != "ok":
+                break
+            s_k = r["stop_crit"]                      # score of the iterate returned by budget k-1
+            if prev_w is not None and np.isfinite(s_k):
+                viol = C.certificate(c, prev_w)[0]
+                ctx.count("gram_claim_points")
+                ctx.obs(s_k, nontrivial=s_k > 0)
+                if s_k < viol * (1 - 1e-6) - 1e-12:
+                    # concrete witness: the same solve with tol = s_k stops at iterate k-1 and claims convergence
+                    cw = dict(comp0, solver=dict(name="GramCD", kw=dict(use_acc=True, greedy_cd=False, tol=float(s_k) * (1 + 1e-12) + 1e-300, max_iter=100)))
+                    rw = C.execute(cw)
+                    v = judge(cw, rw) if rw["status"] == "ok" else None
+                    if v is not None:
+                        site, kind, obs, exp, where = v
+                        ctx.violation(site, kind, dict(op="solve", comp=cw), obs, exp, where=where, rank=n)
+            prev_w = r["w"]
+            if len(r["obj_out"]) < k:
+                break
+    ctx.sample(dict(op="gram_claims", columns=n))
 
 
 def comps_for_domain(task, tier, d_max):
@@ -107,6 +145,8 @@ def run(task, ctx):
     tier = ctx.tier
     if task["op"] == "ws":
         return run_ws(task, ctx)
+    if task["op"] == "gram_claims":
+        return run_gram_claims(task, ctx)
     d_max = 2 if tier == "quick" else 3
     n = 0
     for comp in comps_for_domain(task, tier, d_max):
